@@ -464,7 +464,7 @@ class OrderTaint:
             elif isinstance(p, ast.Subscript) and p.value is n:
                 if isinstance(p.slice, ast.Slice):
                     ok(n, k, 'slice (result is tracked)')
-                elif k == ODICT:
+                elif k == ODICT or strip_opt(env.type_of(n))[0] == 'dict' or isinstance(n, ast.Dict):
                     ok(n, k, 'lookup by key')
                 else:
                     sink(n, k, 'indexed by position')
@@ -497,6 +497,8 @@ class OrderTaint:
                     ok(n, k, 'carried on (tracked)')
             elif isinstance(p, ast.Raise):
                 self.diagnostics.append((fn, n, 'raised'))
+            elif isinstance(p, ast.arguments):
+                ok(n, k, 'default value of a parameter (the parameter is tracked)')
             else:
                 sink(n, k, f'unmodelled consumer {type(p).__name__}')
             if isinstance(n, (ast.Name, ast.Attribute, ast.Call)) and k == SET:
